@@ -101,9 +101,14 @@ def render(block, eol: bytes) -> bytes:
     return out
 
 
+_HIST = []   # one AutoDecoder per process whose whole history consists of genuine P1 messages (C12: "history of genuine messages of the same meter")
+
+
 def record(block, eol: str, text: bytes, ident: bytes, origin: str) -> dict:
     from han import dlde
     from han.autodecoder import AutoDecoder
+    if not _HIST:
+        _HIST.append(AutoDecoder())
     try:
         items = dlde.parse_p1_readout_content(text)
         parse = {"raised": "", "items": [{"addr": list((d.address or "").encode()),
@@ -115,15 +120,23 @@ def record(block, eol: str, text: bytes, ident: bytes, origin: str) -> dict:
     auto = call(AutoDecoder().decode_message_payload, text)
     if auto["raised"] == "returned NoneType":
         auto["raised"] = "None"
+    autoh = call(_HIST[0].decode_message_payload, text)
+    if autoh["raised"] == "returned NoneType":
+        autoh["raised"] = "None"
     readout = {"raised": "", "entries": []}
+    automsg = {"raised": "", "entries": []}
     if ident:
         try:
             ro = dlde.DataReadout(ident + b"\r\n" + text + b"!\r\n")
             readout = call(dlde.decode_p1_readout, ro)
         except Exception as ex:  # noqa: BLE001
             readout = {"raised": type(ex).__name__, "entries": []}
+        try:
+            automsg = call(_HIST[0].decode_message, dlde.DataReadout(ident + b"\r\n" + text + b"!\r\n"))
+        except Exception as ex:  # noqa: BLE001
+            automsg = {"raised": type(ex).__name__, "entries": []}
     return {"id": stable_id("p1dec", text.hex(), ident.hex()), "canary": "", "origin": origin, "block": block, "eol": eol, "text": list(text),
-            "ident": list(ident), "parse": parse, "content": content, "readout": readout, "auto": auto}
+            "ident": list(ident), "parse": parse, "content": content, "readout": readout, "auto": auto, "autoh": autoh, "automsg": automsg}
 
 
 # ----------------------------------------------------------------------------- random blocks
@@ -243,11 +256,14 @@ def run_c11(chk: Check) -> int:
                            "shapes with several data sets per line, multi-valued sets, blank lines, clock, unknown codes, LF/CRLF); code->spec: random "
                            "blocks (known/unknown addresses, 1..3 values, units in any letter case, leading zeros) with random identification lines; TLC "
                            "re-renders each block, then judges parse result, decoded dictionary (kilo units within one below the exact product), "
-                           "identification fields and equality of the three decode paths; non-trivial = distinct block")
+                           "identification fields and equality of the decode paths (decode_p1_readout_content, decode_p1_readout, a fresh AutoDecoder, and one "
+                           "AutoDecoder per worker with a history of P1 messages through decode_message_payload and decode_message(DataReadout)); "
+                           "non-trivial = distinct block")
 
 
 def replay_c11(chk: Check, rp: dict) -> int:
     t = rp["trace"]
+    record(t["block"], t["eol"], bytes(t["text"]), bytes(t["ident"]), "replay")        # history: the same message once before
     nt = record(t["block"], t["eol"], bytes(t["text"]), bytes(t["ident"]), "replay")
     v = chk.judge("p1", "Trace_P1Dec", [nt], what="replay")[0]
     if not v["ok"]:
